@@ -279,7 +279,7 @@ def customize(
             frame.hide = True
         if hide_line:
             frame.hide_line = True
-        if elaborate:
+        if elaborate is not None:
             replacement = elaborate(frame, next_inner)
             if replacement is not None:  # pragma: no branch
                 return replacement
